@@ -1,14 +1,14 @@
 (** C05 – redraw throttling.  Executable model, definitions only.
 
-    Transcribes (tree at /repo HEAD 2747e49, i.e. after fix commits e4a1051 and 3894c8b)
+    Transcribes (tree at /repo HEAD 7d42cff, i.e. after fix commits e4a1051 and 3894c8b)
       - RateLimiter::{new,allow}            src/draw_target.rs:441-493
-      - AtomicPosition::{new,allow,reset}   src/state.rs:540-612
+      - AtomicPosition::{new,allow,reset}   src/state.rs:547-619
       - the request paths that feed them    src/progress_bar.rs:231-258, 295-301, 309-311,
                                             337-341, 366-368
                                             src/state.rs:74-98 (reset), 143-157 (tick,
                                             update_estimate_and_draw), 200-223 (draw)
                                             src/draw_target.rs:162-208 (drawable)
-                                            src/multi.rs:276-372 (MultiState::draw),
+                                            src/multi.rs:286-382 (MultiState::draw),
                                             386-393 (draw_state)
     Instants are integer nanoseconds (the mock clock of src/verif_clock.rs is a u64 of
     nanoseconds; std::time::Instant has the same resolution).  Machine integers are [N]
@@ -55,37 +55,37 @@ Definition rl_allow (s : rl) (now : N) : outcome (rl * bool) :=
 (** * AtomicPosition's limiter (one per bar) *)
 
 (* struct AtomicPosition { pos, capacity: AtomicU8, prev: AtomicU64 /* ns after start */,
-   start: Instant }   state.rs:540-545 *)
+   start: Instant }   state.rs:547-552 *)
 Record ap := mk_ap { ap_cap : N; ap_prev : N; ap_start : N }.
 
-(* state.rs:548-555 *)
+(* state.rs:555-562 *)
 Definition ap_new (now : N) : ap := {| ap_cap := AP_MAX_BURST; ap_prev := 0; ap_start := now |}.
 
-(* state.rs:557-590  AtomicPosition::allow (single caller; the two atomics are read and
+(* state.rs:564-597  AtomicPosition::allow (single caller; the two atomics are read and
    written as one step – concurrent callers are outside the property, see docs/C05.md).
-   Panic 3 = the `- 1` at line 584 underflows; Panic 4 = `elapsed - remainder` at line 588
+   Panic 3 = the `- 1` at line 591 underflows; Panic 4 = `elapsed - remainder` at line 595
    underflows (u64, overflow checks on). *)
 Definition ap_allow (s : ap) (now : N) : outcome (ap * bool) :=
-  if now <? ap_start s then Ok (s, false)                         (* 558-560 *)
+  if now <? ap_start s then Ok (s, false)                         (* 565-567 *)
   else
-    let capacity := ap_cap s in                                   (* 562 *)
-    let prev := ap_prev s in                                      (* 564 *)
-    let elapsed := (now - ap_start s) mod U64 in                  (* 566: as_nanos() as u64 *)
-    let diff := sat_sub elapsed prev in                           (* 568 *)
-    if (capacity =? 0) && (diff <? AP_INTERVAL_NS)                (* 573 *)
-    then Ok (s, false)                                            (* 574 *)
+    let capacity := ap_cap s in                                   (* 569 *)
+    let prev := ap_prev s in                                      (* 571 *)
+    let elapsed := (now - ap_start s) mod U64 in                  (* 573: as_nanos() as u64 *)
+    let diff := sat_sub elapsed prev in                           (* 575 *)
+    if (capacity =? 0) && (diff <? AP_INTERVAL_NS)                (* 580 *)
+    then Ok (s, false)                                            (* 581 *)
     else
-      let new := diff / AP_INTERVAL_NS in                         (* 581 *)
-      let remainder := diff mod AP_INTERVAL_NS in                 (* 581 *)
-      let m := N.min AP_MAX_BURST (capacity + new) in             (* 584, u128 *)
-      if m =? 0 then Panic 3                                      (* 584: `- 1` *)
-      else if elapsed <? remainder then Panic 4                   (* 588 *)
-      else Ok ({| ap_cap := (m - 1) mod U8;                       (* 584: `as u8`, 587 *)
-                  ap_prev := elapsed - remainder;                 (* 588 *)
+      let new := diff / AP_INTERVAL_NS in                         (* 588 *)
+      let remainder := diff mod AP_INTERVAL_NS in                 (* 588 *)
+      let m := N.min AP_MAX_BURST (capacity + new) in             (* 591, u128 *)
+      if m =? 0 then Panic 3                                      (* 591: `- 1` *)
+      else if elapsed <? remainder then Panic 4                   (* 595 *)
+      else Ok ({| ap_cap := (m - 1) mod U8;                       (* 591: `as u8`, 594 *)
+                  ap_prev := elapsed - remainder;                 (* 595 *)
                   ap_start := ap_start s |},
-               true).                                             (* 589 *)
+               true).                                             (* 596 *)
 
-(* state.rs:592-596  AtomicPosition::reset – position to 0 (modelled in the bar below) and
+(* state.rs:599-603  AtomicPosition::reset – position to 0 (modelled in the bar below) and
    prev := saturating_duration_since(start).as_nanos() as u64; capacity is left alone. *)
 Definition ap_reset (s : ap) (now : N) : ap :=
   {| ap_cap := ap_cap s; ap_prev := (now - ap_start s) mod U64; ap_start := ap_start s |}.
@@ -116,11 +116,12 @@ Fixpoint ap_run (s : ap) (ops : list apop) : list (outcome bool) :=
 
 (** * A bar (or the bars of a MultiProgress) in front of a draw target *)
 
-(* what a painted row shows: the template used by the tie is "{pos}/{len}/{msg}" *)
+(* what a painted row shows: the template used by the tie is "{pos}/{len}/{msg}/{prefix}"; the
+   model keeps the first three fields (the prefix is compared by the harness oracle only) *)
 Definition frame := (N * N * N)%type.
 
 (* per bar: the live ProgressState fields that are rendered, the bar's position limiter, and –
-   for a member of a MultiProgress – the member's stored DrawState (multi.rs:386-393, 487-491), i.e. what
+   for a member of a MultiProgress – the member's stored DrawState (multi.rs:396-403, 497-501), i.e. what
    the bar looked like at its most recent draw request, painted or not. *)
 Record mbar := mk_mbar { m_pos : N; m_len : N; m_msg : N; m_ap : ap; m_shown : option frame }.
 
@@ -135,6 +136,9 @@ Inductive bop :=
 | OInc (d : N) | ODec (d : N) | OSetPos (p : N)     (* progress_bar.rs:243-258, 295-301 *)
 | OTick                                             (* progress_bar.rs:231-240 *)
 | OSetMsg (m : N) | OSetLen (l : N)                 (* progress_bar.rs:337-341, 309-311 *)
+| OSetPrefix (p : N)                                (* progress_bar.rs:327-331: a draw step like
+                                                       set_message; the prefix is not part of a
+                                                       [frame] row, the harness oracle checks it *)
 | OReset.                                           (* progress_bar.rs:366-368, state.rs:74-98 *)
 
 Fixpoint set_nth {A} (i : nat) (x : A) (l : list A) : list A :=
@@ -163,8 +167,8 @@ Definition rl_opt_allow (r : option rl) (now : N) : outcome (option rl * bool) :
    stand-alone: ask the limiter; if allowed render the LIVE state and paint (one flush).
    member of a multi: drawable() is always Some (draw_target.rs:183-191), the member's DrawState
    is re-rendered from the live state first (state.rs:212-219), then MultiState::draw asks the
-   multi's limiter (multi.rs:331) and paints the stored rows of all members in order
-   (multi.rs:346-351). *)
+   multi's limiter (multi.rs:341) and paints the stored rows of all members in order
+   (multi.rs:356-361). *)
 Definition sys_request (s : sys) (i : nat) (b : mbar) (now : N)
   : outcome (sys * option (list frame)) :=
   if s_multi s then
@@ -207,9 +211,9 @@ Definition sys_step (s : sys) (now : N) (i : N) (o : bop)
   | None => Ok (s, (false, None))
   | Some b =>
       match o with
-      | OInc d => via_ap s k (with_pos b (wadd64 (m_pos b) d)) now       (* state.rs:598-600 *)
-      | ODec d => via_ap s k (with_pos b (wsub64 (m_pos b) d)) now       (* state.rs:602-604 *)
-      | OSetPos p => via_ap s k (with_pos b p) now                       (* state.rs:606-608 *)
+      | OInc d => via_ap s k (with_pos b (wadd64 (m_pos b) d)) now       (* state.rs:605-607 *)
+      | ODec d => via_ap s k (with_pos b (wsub64 (m_pos b) d)) now       (* state.rs:609-611 *)
+      | OSetPos p => via_ap s k (with_pos b p) now                       (* state.rs:613-615 *)
       | OTick =>
           match sys_request s k b now with
           | Panic e => Panic e | Ok (s', fr) => Ok (s', (true, fr)) end
@@ -218,6 +222,9 @@ Definition sys_step (s : sys) (now : N) (i : N) (o : bop)
           | Panic e => Panic e | Ok (s', fr) => Ok (s', (true, fr)) end
       | OSetLen l =>
           match sys_request s k (mk_mbar (m_pos b) l (m_msg b) (m_ap b) (m_shown b)) now with
+          | Panic e => Panic e | Ok (s', fr) => Ok (s', (true, fr)) end
+      | OSetPrefix _ =>
+          match sys_request s k b now with
           | Panic e => Panic e | Ok (s', fr) => Ok (s', (true, fr)) end
       | OReset =>
           (* state.rs:74-97: pos.reset(now), trackers get reset() (not tick()), draw(false) *)
@@ -277,7 +284,7 @@ Fixpoint nondec (lo : N) (ts : list N) : Prop :=
 Definition apop_time (o : apop) : N := match o with AReq t | ARst t => t end.
 
 (* every instant is less than 2^64 ns (584 years) after the bar's creation [st], so that
-   `as_nanos() as u64` (state.rs:566) does not truncate *)
+   `as_nanos() as u64` (state.rs:573) does not truncate *)
 Definition ap_times_ok (st : N) (ops : list apop) : Prop :=
   forall o, In o ops -> apop_time o < st + U64.
 
@@ -339,6 +346,7 @@ Definition upd (f : frame) (o : bop) : frame :=
   | OTick => f
   | OSetMsg m' => (p, l, m')
   | OSetLen l' => (p, l', m)
+  | OSetPrefix _ => f
   | OReset => (0, l, m)
   end.
 
